@@ -8,7 +8,10 @@ an OSError (a failed chunk read).
 """
 from __future__ import annotations
 
+import os
 import random
+
+_DEBUG = os.environ.get('EMSVERIF_DASK_DEBUG')
 
 
 class _FakeFuture:
@@ -64,6 +67,9 @@ class SeededScheduler:
             if i != 0:
                 sched.reordered += 1
             f = pending.pop(i)
+            if _DEBUG:
+                with open(_DEBUG, 'a') as fh:
+                    fh.write(f'{os.getpid()} g{sched.graphs} pick {i}/{len(pending) + 1} {[b[0] for b in f.args[0]]}\n')
             fault = sched.ctl.cross('dask') if sched.ctl is not None else None
             sched.executed += 1
             if fault is not None:
@@ -93,8 +99,44 @@ class SeededScheduler:
             self.order_sigs.append(hash(tuple(choices)) & 0xffffff)
 
 
+_SCRATCH_RE = None
+
+
+def _stable_tokens():
+    """dask names every graph key after a token; xarray derives the token of a file-backed variable from the file's
+    absolute path and modification time.  Both differ from run to run (random scratch directory, wall clock), and dask
+    breaks ties in its static task ordering by comparing key *names* -- so which chunk is read first could differ
+    between two executions of the same plan.  Tokens are made a function of the plan: the scratch directory's random
+    part and the modification time are taken out of what gets tokenised."""
+    global _SCRATCH_RE
+    import os
+    import re
+    import dask.base
+    import xarray.backends.api as api
+    if getattr(dask.base.tokenize, '_emsverif', False):
+        return
+    _SCRATCH_RE = re.compile(r'emsverif-[A-Za-z0-9_]{8}')
+    real = dask.base.tokenize
+
+    def norm(x):
+        if isinstance(x, os.PathLike):
+            x = os.fspath(x)
+        if isinstance(x, str):
+            return _SCRATCH_RE.sub('emsverif-#', x)
+        if isinstance(x, (list, tuple)):
+            return type(x)(norm(v) for v in x)
+        return x
+
+    def tokenize(*args, **kwargs):
+        return real(*[norm(a) for a in args], **{k: norm(v) for k, v in kwargs.items()})
+    tokenize._emsverif = True
+    dask.base.tokenize = tokenize
+    api._get_mtime = lambda filename_or_obj: None
+
+
 def install(ctl, order_seed, n_workers):
     import dask
+    _stable_tokens()
     sched = SeededScheduler(ctl, order_seed, n_workers)
     dask.config.set(scheduler=sched)
     return sched
